@@ -49,7 +49,16 @@ func (s *PSlice) Add(addrs ...boson.Address) {
 		addrPo = append(addrPo, po)
 		if e, _ := s.index(addr, po); e {
 			exists[i] = true
-		} else {
+			continue
+		}
+		// an address repeated inside the batch is added only once
+		for j := 0; j < i; j++ {
+			if addrs[j].Equal(addr) {
+				exists[i] = true
+				break
+			}
+		}
+		if !exists[i] {
 			binChange[po]++
 		}
 	}
